@@ -8,7 +8,7 @@ from typing import Dict, List
 
 from ..framework import Check, SRC
 from ..defs_common import FAM, regen_or_report
-from ..defs_emit_common import (F, build_corpus, closure_case, closure_coq, closure_files, closure_model_ok, coq_ap, cz, read_py,
+from ..defs_emit_common import (F, build_corpus, closure_case, closure_coq, closure_files, closure_model_ok, coq_ap, cz, effective_options, read_py,
                                 run_emit, EXC_CODE)
 
 THEOREMS = ["C16_combined", "C16_combined_closure", "C16_combined_exact", "C16_combined_refuted_alias_of_struct",
@@ -132,13 +132,19 @@ def source_rt_classes(cl: dict) -> set:
     return cs
 
 
-def options_oracle(cl: dict, raw: dict) -> List[tuple]:
-    """The `compiler_options` section of the combined YAML, against the source closure.  The compiler honours the
-    options of the file it is given and of no other (pyrtma.compile.main reads the root file's section), and the combined
-    file inlines the core definitions.  So the combined file must carry IMPORT_COREDEFS: false, every option the ROOT file
-    sets away from its default (so that compiling it configures the parser the way the original compile was), and
-    nothing that only an IMPORTED file says.  -> [(key, description)]"""
+def options_oracle(cl: dict, raw: dict, eff: dict = None) -> List[tuple]:
+    """The `compiler_options` section of the combined YAML, against the compile that wrote it.  The combined file inlines
+    the core definitions and must be recompiled the way the original compile ran (YAMLCompiler.generate since fca7af6):
+        IMPORT_COREDEFS: false, VALIDATE_ALIGNMENT: <effective>, AUTO_PAD: <effective>
+    effective = the ROOT file's section over the defaults, then the switch-off flags of the command line (what the worker
+    passed to compile(); `eff` is what it reports, cross-checked with the harness' own reading of the closure).  Sections
+    of IMPORTED files configure nothing.  An absent entry counts as the default.  -> [(key, description)]"""
     out = []
+    mine = effective_options(cl)
+    if eff is None:
+        eff = mine
+    elif any(eff.get(k) != mine[k] for k in ("VALIDATE_ALIGNMENT", "AUTO_PAD")):
+        out.append(("harness:effective-options", f"worker ran with {eff}, the closure says {mine}"))
     root = cl["files"][0].get("options") or {}
     others = {}
     for f in cl["files"][1:]:
@@ -146,17 +152,21 @@ def options_oracle(cl: dict, raw: dict) -> List[tuple]:
             others.setdefault(k, set()).add(v)
     if raw.get("IMPORT_COREDEFS") is not False:
         out.append(("combined:options", f"combined YAML does not switch the core import off: {raw}"))
-    for k, v in raw.items():
-        if k == "IMPORT_COREDEFS":
+    for k in sorted(set(raw) - set(OPT_DEFAULTS)):
+        out.append((K_OPT_LEAK if k in others else "combined:options", f"combined YAML carries an option of its own: {k}: {raw[k]}"))
+    for k in ("VALIDATE_ALIGNMENT", "AUTO_PAD"):
+        got = raw.get(k, OPT_DEFAULTS[k])
+        if got == eff[k]:
             continue
-        want = root.get(k, OPT_DEFAULTS.get(k))
-        if v != want:
-            src = "an imported file" if v in others.get(k, ()) else "nowhere in the root file"
-            out.append((K_OPT_LEAK if v in others.get(k, ()) else "combined:options",
-                        f"combined YAML carries {k}: {v} ({src}); the original compile ran with {k} = {want} (root file / default)"))
-    for k, v in root.items():
-        if k != "IMPORT_COREDEFS" and v != OPT_DEFAULTS.get(k) and raw.get(k, OPT_DEFAULTS.get(k)) != v:
-            out.append((K_OPT_LOST, f"the root file sets {k}: {v}; the combined YAML has {k} = {raw.get(k, 'no entry (default ' + str(OPT_DEFAULTS.get(k)) + ')')}"))
+        where = f"root file: {root[k]}" if k in root else "not in the root file"
+        if k in raw and got in others.get(k, ()):
+            out.append((K_OPT_LEAK, f"combined YAML carries {k}: {got}, which only an imported file says; the original compile ran with "
+                                    f"{k} = {eff[k]} ({where}, command line switch: {'off' if (k == 'AUTO_PAD' and not cl.get('auto_pad', True)) else 'not given'})"))
+        elif eff[k] != OPT_DEFAULTS[k]:
+            out.append((K_OPT_LOST, f"the original compile ran with {k} = {eff[k]} ({where}); the combined YAML has "
+                                    f"{k} = {raw[k] if k in raw else 'no entry (default ' + str(OPT_DEFAULTS[k]) + ')'}"))
+        else:
+            out.append(("combined:options", f"combined YAML carries {k}: {got}; the original compile ran with {k} = {eff[k]} ({where})"))
     return out
 
 
@@ -182,6 +192,12 @@ def extra_closures() -> List[dict]:
                 dict(path="root.yaml", imports=[1], items=items, options={opt: val}),
                 dict(path="lib/legacy.yaml", imports=[], items=[("struct", "L0", F(("x", "int32", None)))])],
                 auto_pad=True, import_coredefs=(opt == "IMPORT_COREDEFS")), coq=True))
+    # a section entry that is none of the three documented options, in an imported file (handle_compiler_options takes any
+    # name): the combined file carries exactly the three entries above, so this one must not appear in it
+    out.append(dict(tag="opts-imported:other-entry", cl=dict(files=[
+        dict(path="root.yaml", imports=[1], items=list(PAD)),
+        dict(path="lib/legacy.yaml", imports=[], items=list(LIBPAD), options={"LEGACY_BUILD": True, "AUTO_PAD": True})],
+        auto_pad=True, import_coredefs=False), coq=True))
     # root and imported file disagree; two imported files disagree with each other
     out.append(dict(tag="opts-root-vs-imported", cl=dict(files=[
         dict(path="root.yaml", imports=[1, 2], items=list(PAD), options={"VALIDATE_ALIGNMENT": True, "AUTO_PAD": True}),
@@ -295,7 +311,8 @@ def run(chk: Check):
                 c2 = EXC_CODE.get(rt["exc"], 99)
                 rt_stats["rejected"] += 1
                 key = "hang:reparse-combined" if rt["exc"] == "HANG" else \
-                    K_OPT_LEAK if any(k == K_OPT_LEAK for k, _ in options_oracle(c["cl"], rt.get("raw_opts") or {})) else \
+                    K_OPT_LEAK if any(k == K_OPT_LEAK for k, _ in options_oracle(c["cl"], rt.get("raw_opts") or {}, res.get("effective_options"))) else \
+                    K_OPT_LOST if any(k == K_OPT_LOST for k, _ in options_oracle(c["cl"], rt.get("raw_opts") or {}, res.get("effective_options"))) else \
                     K_ALIAS_STRUCT if (K_ALIAS_STRUCT in cs and "alias" in rt["msg"]) else \
                     K_STRUCT_MSG if (K_STRUCT_MSG in cs and ("Unknown type" in rt["msg"] or "Unable to find definition" in rt["msg"])) else \
                     "combined:reparse-fails:" + str(rt["exc"])
@@ -313,14 +330,14 @@ def run(chk: Check):
                 else:
                     rt_stats["differs"] += 1
                     d = first_model_diff(ca, cb)
-                    ok = [k for k, _ in options_oracle(c["cl"], rt.get("raw_opts") or {})]
+                    ok = [k for k, _ in options_oracle(c["cl"], rt.get("raw_opts") or {}, res.get("effective_options"))]
                     key = K_RESERVED if (K_RESERVED in cs and d.startswith(("mts", "messages"))) else \
                         K_OPT_LEAK if K_OPT_LEAK in ok else K_OPT_LOST if K_OPT_LOST in ok else "combined:model-differs"
                     chk.spec_failure(key, "re-parsing the combined YAML gives different ids/hashes/sizes/layouts: " + d, replay)
             # the options the combined file carries (whether or not the re-parse was accepted)
             leak = False
             if rt.get("raw_opts") is not None:
-                for key, desc in options_oracle(c["cl"], rt["raw_opts"]):
+                for key, desc in options_oracle(c["cl"], rt["raw_opts"], res.get("effective_options")):
                     leak = leak or key == K_OPT_LEAK
                     opt_stats[key] = opt_stats.get(key, 0) + 1
                     chk.spec_failure(key, desc + (f"; recompiling the combined YAML: {rt['exc']}: {rt['msg'][:100]}" if not rt["ok"] else
